@@ -475,10 +475,15 @@ def chunk_independence(prop, tier, seed):
     fails = []
     n = 0
     distinct = 0
-    texts = list(words(alpha, maxlen))
     rnd = random.Random(seed)
     if tier == 'quick':
+        texts = list(words(alpha, 5))
         texts = [t for t in texts if len(t) <= 4] + rnd.sample([t for t in texts if len(t) == 5], 2500)
+    else:
+        # exhaustive to length 5; lengths 6 and 7 (117 649 and 823 543 texts) are seeded samples so that the run stays within minutes
+        texts = list(words(alpha, 5))
+        texts += [''.join(rnd.choice(alpha) for _ in range(6)) for _ in range(20000)]
+        texts += [''.join(rnd.choice(alpha) for _ in range(7)) for _ in range(10000)]
     for text in texts:
         distinct += 1
         for policy in ('simple', 'quoted', 'quoted_rfc'):
@@ -536,6 +541,6 @@ def chunk_independence(prop, tier, seed):
         recs, hdr, ws = read_table(text, ',', 'quoted_rfc')
         if not any('﻿' in f for r in recs for f in r) or ws:
             fails.append({'replay': 'none', 'key': 'bom-later:%r' % text, 'expected': 'BOM character kept as data, no warning', 'observed': (recs, ws)})
-    return {'job': 'chunk_independence', 'evaluations': n, 'distinct_nontrivial': distinct, 'exhaustive': tier != 'quick',
-            'rule': 'texts of length <= %d over {a, quote, comma, LF, CR, #, space} x policies {simple, quoted, quoted_rfc} x comment/header on-off x chunk sizes 1,2,3,n+1 and read partitions (all 2^(n-1) for n <= 4): records, header and warning kinds equal the declarative reading of C12; byte-level chunks of multi-byte UTF-8 samples; BOM in utf-8 and latin-1' % maxlen,
+    return {'job': 'chunk_independence', 'evaluations': n, 'distinct_nontrivial': distinct, 'exhaustive': False,
+            'rule': ('quick: all texts of length <= 4 and 2500 seeded of length 5; ' if tier == 'quick' else 'thorough: all texts of length <= 5, 20000 seeded of length 6, 10000 seeded of length 7; ') + 'texts over {a, quote, comma, LF, CR, #, space} (bound %d) x policies {simple, quoted, quoted_rfc} x comment/header on-off x chunk sizes 1,2,3,n+1 and read partitions (all 2^(n-1) for n <= 4): records, header and warning kinds equal the declarative reading of C12; byte-level chunks of multi-byte UTF-8 samples; BOM in utf-8 and latin-1' % maxlen,
             'failures': fails, 'samples': ['a\r\nb', '"x\ny",z\n']}
